@@ -111,7 +111,12 @@ def encrypt(T, sc, wd, env=None):
     name = sc["name"]
     with open(os.path.join(wd, name), "wb") as f:
         f.write(data)
-    if sc["naming"] == "o":
+    if sc["naming"] == "o" and sc["cseed"] % 7 == 3:
+        # names that begin with a dash are names: the output after -o, the input after "--"
+        out = "-enc.out"
+        os.rename(os.path.join(wd, name), os.path.join(wd, "-" + name))
+        argv = [T["asconcrypt"], "-e", "-o", out] + pw_args(sc, wd) + ["--", "-" + name]
+    elif sc["naming"] == "o":
         out = "enc.out"
         argv = [T["asconcrypt"], "-e", "-o", out] + pw_args(sc, wd) + [name]
     else:
@@ -128,7 +133,10 @@ def encrypt(T, sc, wd, env=None):
 
 def decrypt(T, sc, wd, encbytes, env=None, password=None):
     """Writes encbytes as the encrypted file and decrypts. Returns (rc, stderr, output bytes or None)."""
-    if sc["naming"] == "o":
+    if sc["naming"] == "o" and sc["cseed"] % 7 == 3:
+        inp, out = "-dec.in", "-dec.out"
+        argv = [T["asconcrypt"], "-d", "-o", out] + pw_args(sc, wd, password) + ["--", inp]
+    elif sc["naming"] == "o":
         inp, out = "dec.in", "dec.out"
         argv = [T["asconcrypt"], "-d", "-o", out] + pw_args(sc, wd, password) + [inp]
     else:
@@ -631,6 +639,9 @@ def check_sum_case(T, sc, stats):
         shape = sc["mod"]["pos"] % 4
         if shape:
             text = want[:-1] if shape == 1 else (want.replace("\n", "\r\n") if shape == 2 else want.replace("\n", "\r\n")[:-2])
+            if sc["mod"]["pos"] & 128:
+                # hexadecimal digits of either case (lists normalised by other tools)
+                text = "".join((l[:l.index("  ")].upper() + l[l.index("  "):]) if "  " in l else l for l in text.splitlines(True))
             with open(os.path.join(wd, "digests2.ascon"), "w", newline="") as f:
                 f.write(text)
             if sc["mod"]["pos"] & 4:
@@ -641,7 +652,7 @@ def check_sum_case(T, sc, stats):
             stats["runs"] += 1
             if rc != 0 or so.decode("utf-8", "replace") != wantc:
                 return ("asconsum -c on unmodified files, list %s%s, printed %r (rc=%d)" % (["", "without a final newline", "with CR LF line ends", "with CR LF line ends and no final newline"][shape],
-                        " on standard input" if sc["mod"]["pos"] & 4 else "", so.decode("utf-8", "replace")[:200], rc), {"step": "check-ok-shape"})
+                        (" on standard input" if sc["mod"]["pos"] & 4 else "") + (", digests in upper case" if sc["mod"]["pos"] & 128 else ""), so.decode("utf-8", "replace")[:200], rc), {"step": "check-ok-shape"})
         # exactly 256 (and 512) failing entries: the exit status is not a count
         if sc["mod"]["pos"] & 64:
             for nbad in (256, 512):
